@@ -27,8 +27,9 @@ def bases(tier):
         for ef in itertools.product((1, 3), repeat=3):
             for al in (("r1", "r1", "r1"), ("r1", "r2", "r1")):
                 for pr in itertools.product((500, 700), repeat=3):
-                    yield {"n": 3, "L": 60, "eff": 1.0, "ef": ef, "al": al, "es": (), "pr": pr, "gap": 0, "pin": None, "leave": False, "lim": None,
-                           "z": None, "alap": False, "wrap": wrap}
+                    for wrap2 in (False, True):   # wrap2: the container's leaves sit two levels down (one leaf closes two levels at once)
+                        yield {"n": 3, "L": 60, "eff": 1.0, "ef": ef, "al": al, "es": (), "pr": pr, "gap": 0, "pin": None, "leave": False, "lim": None,
+                               "z": None, "alap": False, "wrap": wrap, "wrap2": wrap2}
     ns = (2,) if tier == "quick" else (2, 3)
     for n in ns:
         allocs = ("r1", "r2", "team") if n == 2 else ("r1",)
